@@ -18,7 +18,7 @@ PROFILES = {
         "features": {"run.multi", "run.tab", "run.break", "run.link", "run.field", "para.heading", "list.flat", "list.nested", "table.simple", "table.multi-para-cell", "table.empty-cell",
                      "container.group", "unit.multi", "unit.empty", "excluded.speaker-notes", "excluded.header-footer", "excluded.comment"},
         "table_text_in_full_text": True, "unit_kind": "slide", "max_units": 4,
-        "opts": {"permute_parts": [False, True], "abs_targets": [False, False, True], "layout": [None, None, "same"]},
+        "opts": {"permute_parts": [False, True], "abs_targets": [False, False, True], "layout": [None, None, "same"], "merged_cells": [False, False, True]},
         "residue_ignore": r"\b\d{1,3}\b",  # slide-number placeholders are deliberately kept by the extractor (class M)
     },
     "odt": {
